@@ -14,6 +14,7 @@ import shutil
 import time
 
 from mc.engine import ClauseResult, HarnessError
+from mc import par
 
 
 def snapshot(root):
@@ -99,14 +100,18 @@ def bfs(model, name, tier, jobs, max_depth, max_faults, cap_s=None, cap_states=N
         if not tasks:
             break
         model.depth_now = depth          # visible to the forked workers of this level
-        if os.environ.get("VERIF_SERIAL") or jobs <= 1:
-            results = [_expand(t) for t in tasks]
-        else:
-            with ctx.Pool(min(jobs, len(tasks))) as pool:
-                results = pool.map(_expand, tasks, chunksize=1)
+        results = par.pmap(_expand, tasks, jobs)
         nxt = []
         for task, trans in zip(tasks, results):
             pre = states[task[1]]
+            if isinstance(trans, par.Died):
+                # the real entry point killed the interpreter (e.g. SIGBUS after truncating a memory-mapped file)
+                cr.transitions += 1
+                cr.evaluations += 1
+                hist = pre["history"] + [dict(task[4], crash=None)]
+                cr.viol("process-died", "the run %r in the state reached by %r killed the interpreter (%s); the directory it leaves cannot be inspected"
+                        % (task[4], pre["history"], trans.describe()), {"history": hist, "model": name}, idx=cr.transitions)
+                continue
             for tr in trans:
                 cr.transitions += 1
                 cr.executions += 1
